@@ -65,6 +65,8 @@ type Server struct {
 	HS   []*httptest.Server
 	next int
 	Rand *rand.Rand
+	// Extra HTTP response headers, as an HTTP cache in front of the DoH server adds them (Age, Cache-Control)
+	Headers map[string]string
 }
 
 // NewServer starts the DoH endpoint on several loopback ports. The package under test opens a new
@@ -99,6 +101,12 @@ func (s *Server) Close() {
 func (s *Server) Set(u Universe) {
 	s.mu.Lock()
 	s.U = u
+	s.mu.Unlock()
+}
+
+func (s *Server) SetHeaders(h map[string]string) {
+	s.mu.Lock()
+	s.Headers = h
 	s.mu.Unlock()
 }
 
@@ -157,6 +165,9 @@ func (s *Server) handle(w http.ResponseWriter, req *http.Request) {
 		resp = Resp{RCode: 3}
 	}
 	compress := s.Rand.IntN(2) == 0
+	for k, v := range s.Headers {
+		w.Header().Set(k, v)
+	}
 	s.mu.Unlock()
 	if resp.Fail {
 		http.Error(w, "scripted failure", 400)
